@@ -76,13 +76,13 @@ def check(ctx):
         ctx.expect(ok, "C11.5", "is-empty/all-fields", fe["sp"], "is_empty is the conjunction over all %d lists %s" % (len(fields), fields), "is_empty is `%s`" % t)
     Q = "scale_info::Path{segments:Iterator::collect(Iterator::map(Punctuated::iter(P1.segments),|1|{ToString::to_string(C1_0.ident)}))}"
     expect_fn(ctx, "C11.6", "similar-paths", "validation::similar_type_paths_in_registry",
-              "early{Option::is_none(Path::ident(%s))=>return Vec::new()}Iterator::collect(Iterator::filter_map(P0.types,|1|{{Option::filter(Path::ident(C1_0.ty.path),|1|{(C2_0==Option::expect(Path::ident(%s)))})?;"
-              "TryIntoSynPath::syn_path(C1_0.ty.path)}}))" % (Q, Q),
+              "if(Option::is_none(Path::ident(%s))){Vec::new()}else{Iterator::collect(Iterator::filter_map(P0.types,|1|{{Option::filter(Path::ident(C1_0.ty.path),|1|{(C2_0==Option::expect(Path::ident(%s)))})?;"
+              "TryIntoSynPath::syn_path(C1_0.ty.path)}}))}" % (Q, Q),
               "registry paths whose last identifier equals the query's last identifier, in registry order (order-preserving filter_map); empty query -> empty list", S)
     fs = [b for b in q.fn_by_suffix(P, "TryIntoSynPath>::syn_path", S) if "scale_info::Path" in b["path"]]
     if len(fs) == 1:
         expect_term(ctx, "C11.6", "similar-paths/conversion", fs[0]["sp"], Norm(fs[0]).term(fs[0]["body"]),
-                    "early{slice::is_empty(P0.segments)=>return v1::None}Some(T[#( #0 )::*](Iterator::map(P0.segments,|1|{Result::expect(syn::parse_str(C1_0))})))",
+                    "then(Not(slice::is_empty(P0.segments)),T[#( #0 )::*](Iterator::map(P0.segments,|1|{Result::expect(syn::parse_str(C1_0))})))",
                     "a registry path converts to the syn path with the same segments in order; empty paths convert to None")
     else:
         ctx.bad("C11.6", "missing-anchor/syn_path", "", "TryIntoSynPath for &scale_info::Path not found")
